@@ -35,32 +35,60 @@ using V3 = Vector3<int64_t>;
 
 // ---- the finite point / box universes ---------------------------------------------------------
 
-template <class Pt>
+// A grid maps small indices to coordinates through a strictly increasing map, so that the same closure can
+// be run on the plain grid (IdMap) and on one whose coordinates sit at the limits of int64_t (ExtMap).
+// pv(i): coordinate of grid index i (0 <= i < SIDE); cv(i): box corner i (0 <= i <= SIDE); inv: coordinate -> index.
+struct IdMap {
+  static int64_t pv(int i) { return i; }
+  static int64_t cv(int i) { return i; }
+  static int inv(int64_t v) { return (v >= 0 && v < 8) ? (int)v : -1; }
+  static const char* text() { return "coordinates 0..SIDE-1"; }
+};
+template <int SIDE>
+struct ExtMap {  // INT64_MIN, (-1,) INT64_MAX-1; corners additionally INT64_MAX
+  static int64_t pv(int i) { return i == 0 ? INT64_MIN : (i == SIDE - 1 ? INT64_MAX - 1 : -1); }
+  static int64_t cv(int i) { return i == SIDE ? INT64_MAX : pv(i); }
+  static int inv(int64_t v) {
+    for (int i = 0; i < SIDE; i++)
+      if (pv(i) == v) return i;
+    return -1;
+  }
+  static const char* text() { return SIDE == 3 ? "coordinates INT64_MIN, -1, INT64_MAX-1; box corners also INT64_MAX" : "coordinates INT64_MIN, INT64_MAX-1; box corners also INT64_MAX"; }
+};
+
+template <class Pt, template <int> class MpT>
 struct Grid;
 
-template <>
-struct Grid<V2> {  // 3x3 grid: ties on both axes
+template <template <int> class MpT>
+struct Grid<V2, MpT> {  // 3x3 grid: ties on both axes
   static constexpr int D = 2, NPTS = 9, SIDE = 3;
-  static V2 pt(int id) { return V2(id / 3, id % 3); }
+  using Mp = MpT<SIDE>;
+  static V2 pt(int id) { return V2(Mp::pv(id / 3), Mp::pv(id % 3)); }
   static int id(const V2& p) {
-    if (p.x < 0 || p.x >= SIDE || p.y < 0 || p.y >= SIDE) return -1;
-    return (int)(p.x * 3 + p.y);
+    int x = Mp::inv(p.x), y = Mp::inv(p.y);
+    if (x < 0 || x >= SIDE || y < 0 || y >= SIDE) return -1;
+    return x * 3 + y;
   }
-  static V2 corner(const int* c) { return V2(c[0], c[1]); }
+  static V2 corner(const int* c) { return V2(Mp::cv(c[0]), Mp::cv(c[1])); }
   static std::string show(const V2& p) { return vf::fmt("(%lld,%lld)", (long long)p.x, (long long)p.y); }
 };
 
-template <>
-struct Grid<V3> {  // 2x2x2 cube
+template <template <int> class MpT>
+struct Grid<V3, MpT> {  // 2x2x2 cube
   static constexpr int D = 3, NPTS = 8, SIDE = 2;
-  static V3 pt(int id) { return V3((id >> 2) & 1, (id >> 1) & 1, id & 1); }
+  using Mp = MpT<SIDE>;
+  static V3 pt(int id) { return V3(Mp::pv((id >> 2) & 1), Mp::pv((id >> 1) & 1), Mp::pv(id & 1)); }
   static int id(const V3& p) {
-    if (p.x < 0 || p.x >= SIDE || p.y < 0 || p.y >= SIDE || p.z < 0 || p.z >= SIDE) return -1;
-    return (int)(p.x * 4 + p.y * 2 + p.z);
+    int x = Mp::inv(p.x), y = Mp::inv(p.y), z = Mp::inv(p.z);
+    if (x < 0 || x >= SIDE || y < 0 || y >= SIDE || z < 0 || z >= SIDE) return -1;
+    return x * 4 + y * 2 + z;
   }
-  static V3 corner(const int* c) { return V3(c[0], c[1], c[2]); }
+  static V3 corner(const int* c) { return V3(Mp::cv(c[0]), Mp::cv(c[1]), Mp::cv(c[2])); }
   static std::string show(const V3& p) { return vf::fmt("(%lld,%lld,%lld)", (long long)p.x, (long long)p.y, (long long)p.z); }
 };
+
+template <int SIDE>
+struct IdMapT : IdMap {};
 
 enum Kind { INS = 0, ERA = 1, TRV = 2, EMP = 3 };
 inline uint32_t mk(Kind k, uint32_t arg) { return ((uint32_t)k << 16) | arg; }
@@ -78,11 +106,11 @@ struct Counts {
 
 enum DtorState { UNKNOWN, SAFE, FATAL };
 
-template <class Pt>
+template <class Pt, template <int> class MpT = IdMapT>
 struct Explorer {
   using Tree = KDTree<Pt, int64_t>;
   using Node = typename Tree::Node;
-  using G = Grid<Pt>;
+  using G = Grid<Pt, MpT>;
   static constexpr int D = G::D;
 
   struct Box {
@@ -126,6 +154,7 @@ struct Explorer {
   vf::Run& r;
   int nvals, N, full_subsets_upto;
   bool use_emplace;
+  bool requery = false;  // run every observer before AND after each operation on the same object
   std::vector<Box> boxes;
   DtorState empty_dtor = UNKNOWN;
   int empty_dtor_status = 0;
@@ -150,7 +179,7 @@ struct Explorer {
         bool in = true;
         for (int d = 0; d < D; d++) {
           int64_t c = coord(p, d);
-          if (c < lo[d] || c >= hi[d]) in = false;
+          if (c < coord(b.lo, d) || c >= coord(b.hi, d)) in = false;
         }
         if (in) b.inside |= (uint16_t)(1u << id);
       }
@@ -444,6 +473,10 @@ struct Explorer {
       else if (ex != (exp.n > 0))
         fail(c, ex ? "exists(box):true-for-empty-box" : "exists(box):false-for-occupied-box", [&] { return "exists" + boxstr() + vf::fmt(" == %s, linear scan finds %d entries (model = ", ex ? "true" : "false", exp.n) + show_counts(m) + ")"; });
     }
+    {
+      std::string oc = vf::outcome([&] { (void)t.depth(); });  // outside the statement: executed, not compared
+      if (oc != "ok") fail(c, "depth:throws", [&] { return "depth() threw " + oc; });
+    }
     Scan s1 = scan(w.t);
     if (!s1.well_formed || s1.key != s0.key) fail(c, "observers:change-the-structure", [&] { return std::string("size/iteration/at/exists/within left a different structure behind: ") + s1.problem; });
   }
@@ -530,11 +563,22 @@ struct Explorer {
         destroy(w, q);
         break;
       }
+      if (requery && mine) {
+        set_note("observers-before", &op_name(op), hs);
+        Scan pre = scan(w.t);
+        check_state(w, pre, c);
+      }
       set_note(kind_name(kind_of(op)), &op_name(op), hs);
       bool ok = apply(w, op, c);
       std::string kn = kind_name(kind_of(op));
       if (ok) {
         Scan s = scan(w.t);
+        if (requery && mine && s.well_formed && s.cnt == w.m) {
+          // the same object was observed before the operation: anything remembered from then must not show now
+          std::string hs2 = hs + (hs.empty() ? "" : " ") + "<all observers> " + op_name(op);
+          Ctx c2{c.report, &hs2};
+          check_state(w, s, c2);
+        }
         if (!s.well_formed) {
           // not enqueued; the tree is still destroyed below so that ASan/LSan judge it
           fail(c, kn + ":corrupts-structure", [&] { return op_name(op) + ": " + s.problem; });
@@ -582,6 +626,8 @@ struct Explorer {
     r.bound = vf::fmt("%s: closed over every structure reachable with <= %d live entries (fixpoint: %zu structures, max BFS depth %u); per structure: %d grid points, %zu boxes, "
                       "all 2^n erase subsets for n <= %d%s",
         scope_text, N, ls.tab.size(), ls.tab.max_depth, G::NPTS, boxes.size(), full_subsets_upto, use_emplace ? ", emplace included" : ", emplace does not compile on this tree (not executed)");
+    r.bound += std::string("; ") + G::Mp::text();
+    if (requery) r.bound += "; all observers run on the same object before and after every operation";
     if (!use_emplace) r.notes.push_back("KDTree::emplace is an ill-formed template on this tree (std::forward without template argument): it cannot be instantiated, so it is not part of the alphabet (compile-time defect, not decided)");
   }
 };
@@ -609,6 +655,29 @@ VF_SECTION(S3, 1, 1, 180) {
   bool th = r.thorough();
   Explorer<V3> e(r, 1, th ? 5 : 3, 5);
   e.run("S3 (2x2x2 cube, value 0)", th ? 1 : 2);
+}
+
+// S4: S2's scope, every observer before and after every operation on the same object (what a fresh object per
+// transition cannot show: answers remembered across a mutation)
+VF_SECTION(S4, 1, 1, 180) {
+  bool th = r.thorough();
+  Explorer<V2> e(r, 2, th ? 3 : 2, 5);
+  e.requery = true;
+  e.run("S4 (3x3 grid, values {0,1}, observers around every operation)", th ? 8 : 2);
+}
+
+// S5: S1's scope with the grid coordinates at the limits of int64_t
+VF_SECTION(S5, 1, 1, 180) {
+  bool th = r.thorough();
+  Explorer<V2, ExtMap> e(r, 1, th ? 5 : 4, 5);
+  e.run("S5 (3x3 grid on {INT64_MIN, -1, INT64_MAX-1}, value 0)", th ? 8 : 3);
+}
+
+// S6: S3's scope with the cube coordinates at the limits of int64_t
+VF_SECTION(S6, 1, 1, 180) {
+  bool th = r.thorough();
+  Explorer<V3, ExtMap> e(r, 1, th ? 4 : 3, 5);
+  e.run("S6 (2x2x2 cube on {INT64_MIN, INT64_MAX-1}, value 0)", th ? 2 : 1);
 }
 
 VF_MAIN()
